@@ -71,7 +71,7 @@ def decorate(rng, c, depth=0):
                 difs = []
                 for _ in range(rng.choice([1, 1, 2, 3])):
                     tgt = rng.choice(others)
-                    pred = None if rng.random() < 0.55 else rng.choice([b"v", b"w", b"1", b"d", b"e", b"true", b"false", b"0", b"cd"])
+                    pred = None if rng.random() < 0.5 else rng.choice([b"v", b"w", b"1", b"v", b"w", b"d", b"e", b"true", b"false", b"0", b"cd"])
                     d = None if rng.random() < 0.25 else rng.choice([b"cd", b"c1,c2", b"7"])
                     difs.append((tgt, pred, d))
                 a["difs"] = difs
@@ -111,6 +111,16 @@ PROFILE = dict(defaults=0.7, env=0.6, hyphen=0, tva=0.03, last=0.04, terminators
                ignore_errors=0.04, settings=0.1, max_opts=5, max_pos=2, typed=0.12)
 
 
+def pick_value(rng, a):
+    """values concentrated on the ones the `default_value_if(.., Equals(v), ..)` rules test for"""
+    if (a.get("vp") and not isinstance(a["vp"], str)) or rng.random() < 0.4:
+        return gen_cmd.value_for(rng, a, True)
+    v = rng.choice([b"v", b"w", b"1", b"v", b"w", b"0", b"true"])
+    if a.get("delim") and rng.random() < 0.35:
+        v = rng.choice([b"x1", b"v", b"w"]) + b"," + v
+    return v
+
+
 def render_argv(rng, c, p_mutate, globals_=()):
     """argv of one invocation: every option independently present w.p. 1/2, all spellings"""
     toks = []
@@ -137,7 +147,7 @@ def render_argv(rng, c, p_mutate, globals_=()):
                 items.append([name])
                 continue
             lo, hi = a["num"] if a.get("num") is not None else (1, 1)
-            v = gen_cmd.value_for(rng, a, True)
+            v = pick_value(rng, a)
             if (lo, hi) == (0, 1):
                 k = rng.randrange(5)
                 if k == 0:
@@ -152,7 +162,7 @@ def render_argv(rng, c, p_mutate, globals_=()):
                     items.append([name] if "reqeq" in a["flags"] else [name + b"=" + v])
             else:
                 n = rng.choice([lo, max(lo, 1), hi if hi is not None else lo + 1])
-                vals = [gen_cmd.value_for(rng, a, True) for _ in range(max(n, 1 if lo > 0 else 0))]
+                vals = [pick_value(rng, a) for _ in range(max(n, 1 if lo > 0 else 0))]
                 if len(vals) == 1 and rng.random() < 0.5:
                     items.append([name + b"=" + vals[0]])
                 else:
@@ -165,7 +175,7 @@ def render_argv(rng, c, p_mutate, globals_=()):
             break
         lo, hi = a["num"] if a.get("num") is not None else (1, 1)
         k = 1 if (hi == 1 or a.get("num") is None) else rng.choice([max(lo, 1), max(lo, 1) + 1])
-        pos_toks.append([gen_cmd.value_for(rng, a, True) for _ in range(k)])
+        pos_toks.append([pick_value(rng, a) for _ in range(k)])
     slots = [[] for _ in range(len(pos_toks) + 1)]
     for it in items:
         slots[rng.randrange(len(slots))].append(it)
@@ -230,6 +240,16 @@ def directed_cases():
           arg("o", action="set", default=[b"d"], difs=[(b"a", None, b"c1"), (b"b", b"v", None), (b"b", None, b"c3")])]
     for argv in ([], [b"--a", b"x"], [b"--b", b"v"], [b"--b", b"w"], [b"--a", b"x", b"--b", b"v"], [b"--o", b"c", b"--a", b"x"]):
         out.append((cmd(cd), argv))
+    # Equals looks at every raw value of the other argument (all occurrences, all values, after delimiting)
+    eqs = [arg("a", action="append", num=(1, None), delim=","), arg("o", action="set", default=[b"d"], difs=[(b"a", b"v", b"c1")])]
+    for argv in ([b"--a", b"x", b"--a", b"v"], [b"--a", b"x", b"v"], [b"--a=x,v"], [b"--a", b"x"], [b"--a", b"v", b"--a", b"x"]):
+        out.append((cmd(eqs), argv))
+    import itertools
+    for n in (1, 2, 3):
+        for vals in itertools.product([b"v", b"x"], repeat=n):
+            out.append((cmd(eqs), [t for v in vals for t in (b"--a", v)]))     # separate occurrences
+            out.append((cmd(eqs), [b"--a"] + list(vals)))                      # one occurrence, several values
+            out.append((cmd(eqs), [b"--a=" + b",".join(vals)]))                # delimited
     # DESIGN 7-P: a default of an earlier arg triggers the conditional default of a later one, not vice versa
     out.append((cmd([arg("a", action="set", default=[b"d"]), arg("o", action="set", difs=[(b"a", None, b"c1")])]), []))
     out.append((cmd([arg("o", action="set", difs=[(b"a", None, b"c1")]), arg("a", action="set", default=[b"d"])]), []))
@@ -467,6 +487,7 @@ def check_levels(cmd, argv, m, present):
             sub_names.update(n for n, _ in s.get("aliases", []))
     sub_names.add(b"help")
     full_chain = len(chain) == len(lv)
+    all_eff = [b for _, eff2, _ in chain for b in eff2]     # an override at any reached level can remove a global argument
     global_ids = {b["id"] for _, eff2, _ in chain for b in eff2 if "global" in b["flags"]}
     for k, (c, eff, ents) in enumerate(chain):
         by_id = {e["id"]: e for e in ents}
@@ -492,6 +513,21 @@ def check_levels(cmd, argv, m, present):
                     if b["id"] == a["id"] and b is not a and ("global" in b["flags"] or "global" in a["flags"]):
                         return True
             return False
+        # a group is present through its explicitly given members: its source is never DefaultValue and never
+        # weaker than the source of a member that is reported from the command line / environment
+        rank = {"default": 0, "env": 1, "cmdline": 2}
+        for g in c["groups"]:
+            ge = by_id.get(g["id"])
+            if ge is None or ge["src"] not in rank or any(a["id"] == g["id"] for a in eff):
+                continue
+            if ge["src"] == "default":
+                return "%s: group %s reports value source DefaultValue" % (where, g["id"].decode())
+            for a in eff:
+                if a["id"] in g["args"] and "global" not in a["flags"] and not collides(a):
+                    e = by_id.get(a["id"])
+                    if e is not None and e["src"] in ("env", "cmdline") and rank[ge["src"]] < rank[e["src"]]:
+                        return "%s: group %s reports %s although its member %s reports %s" % (
+                            where, g["id"].decode(), ge["src"], a["id"].decode(), e["src"])
         for a in eff:
             e = by_id.get(a["id"])
             if e is not None and e["src"] == "?":
@@ -537,13 +573,13 @@ def check_levels(cmd, argv, m, present):
             if friendly and gen_cmd.is_opt(a):
                 if e is not None and e["src"] == "cmdline" and not maybe:
                     return "%s: %s reports CommandLine but no token of argv names it" % (where, name)
-                if sure and unique and full_chain and not override_involved(eff, a) and "exclusive" not in a["flags"]:
+                if sure and unique and full_chain and not override_involved(all_eff, a) and "exclusive" not in a["flags"]:
                     if e is None or e["src"] != "cmdline":
                         return "%s: %s was given on the command line but reports %s" % (
                             where, name, "no value" if e is None else e["src"])
             # ---- the missing-value default applies exactly to the occurrences without a value
             if friendly and gen_cmd.is_opt(a) and a.get("dmissing") and a.get("num") == (0, 1) and unique and not is_global \
-                    and full_chain and not override_involved(eff, a) and a.get("action") in ("set", "append", None) \
+                    and full_chain and not override_involved(all_eff, a) and a.get("action") in ("set", "append", None) \
                     and e is not None and e["src"] == "cmdline":
                 exp = _expected_occurrences(a, toks, sub_names)
                 if exp:
